@@ -8,6 +8,15 @@ impl SrtlaConnection {
     /// Register a packet as in-flight. O(1) insert.
     #[inline]
     pub fn register_packet(&mut self, seq: i32, send_time_ms: u64) {
+        // `handle_srt_ack` only visits (highest_acked_seq, ack], which is sound
+        // only while nothing logged sits at or below the high-water mark. A
+        // packet sent after a cumulative ACK already passed its number (a late
+        // retransmit, or simply the packet whose number the last ACK named as
+        // "next expected") would otherwise never be retired by later ACKs, so
+        // pull the mark back below it.
+        if seq <= self.highest_acked_seq {
+            self.highest_acked_seq = seq.saturating_sub(1);
+        }
         self.packet_log.insert(seq, send_time_ms);
         self.in_flight_packets = self.packet_log.len() as i32;
     }
